@@ -115,4 +115,15 @@ def faultEvidenceUnguarded (firstPrecommitRound : Option Int) (evRound : Int) : 
   | none => .error (.panic "consensus.(*ConsensusState).checkFaultValEvidence")
   | some r => if r = evRound then .ok .accepted else .ok (.rejected "round mismatch")
 
+/-! ### addVote, the "precommit for the previous height" branch -/
+
+/-- `addVote` for a precommit of height cs.Height − 1 received in the NewHeight step: added to `cs.LastCommit`, which
+does not exist (nil) at the first height.  As the code is now (fix 26762b7): no last commit → rejected -/
+def stragglerPrecommit (hasLastCommit : Bool) : Except Fault Reply :=
+  if !hasLastCommit then .ok (.rejected "ErrVoteHeightMismatch") else .ok .accepted
+
+/-- before the fix: `VoteSet.AddVote` on the nil vote set is a PanicSanity -/
+def stragglerPrecommitUnguarded (hasLastCommit : Bool) : Except Fault Reply :=
+  if !hasLastCommit then .error (.panic "types.(*VoteSet).AddVote") else .ok .accepted
+
 end Model.PeerInput
